@@ -339,9 +339,9 @@ func c12Deep(r *gen.Rng) (interface{}, string) {
 			if j%2 == 0 {
 				v = []interface{}{v}
 			} else {
-				v = &v
-				var w interface{} = v
-				v = w
+				p := new(interface{})
+				*p = v
+				v = p
 			}
 		}
 	}
